@@ -336,7 +336,17 @@ class Ctx:
         o = Obj(None, dict(attrs), kind=kind)
         return o
 
-    def obj(self, qualname, **attrs):
+    def obj(self, qualname, _bare=False, **attrs):
+        from . import api
+        mk = api.COMPLETERS.get(qualname)
+        if mk is not None and not _bare and not getattr(self, "_completing", False):
+            self._completing = True
+            try:
+                o = mk(self)
+            finally:
+                self._completing = False
+            o.attrs.update(attrs)
+            return o
         c = self.I.resolve(qualname)
         return Obj(c, dict(attrs))
 
